@@ -13,6 +13,7 @@ OBLIGATIONS = [
     'C02.lc_is_grade_diff', 'C02.lc_zero_of_gt', 'C02.add_left', 'C02.add_right', 'C02.smul_left', 'C02.smul_right',
     'C02.outer_signature_independent', 'C02.outer_assoc', 'C02.outer_alternating', 'C02.grade_xor', 'C02.gradedMt_mem',
     'C02.graded_table_contraction_is_mmul',
+    'C02.outer_is_zero_signature_product', 'C02.zero_signature_form_is_zero', 'C02.outer_is_exterior_product',
 ]
 PENDING = []
 RULE = ("layouts as in C01 (exhaustive small signatures, random larger ones, custom ids/orders); per layout every grade pair (r,s) "
